@@ -127,10 +127,13 @@ pub fn find_enhanced_matches(
     // First, find exact matches using the existing pattern approach
     // Skip this for Original-only mode, as it will be handled in the second pass with strict boundaries
     // Also skip for single-style mode with single-word search (we want compound matches only in that case)
+    // A term typed without separators is only a single word if it also tokenizes to one word:
+    // `fooBar` / `FooBar` are two words and must go through the exact pass like `foo_bar`.
     let is_single_word_search = !search.contains('_')
         && !search.contains('-')
         && !search.contains('.')
-        && !search.contains(' ');
+        && !search.contains(' ')
+        && crate::case_model::parse_to_tokens(search).tokens.len() < 2;
     let is_single_style_search = styles.len() == 1;
     let skip_exact_match = is_single_word_search && is_single_style_search;
 
